@@ -562,6 +562,9 @@ func runC09Secs1(rt *rapid.T) {
 			if d := time.Since(start); d > bound {
 				fail(p, "the pending send returned only after %v (bound %v)", d, bound)
 			}
+			if errors.Is(e, context.Canceled) || errors.Is(e, context.DeadlineExceeded) {
+				fail(p, "the pending send ended with %v after %v although its own context (30 s) was neither cancelled nor expired", e, time.Since(start))
+			}
 			pendingAtDrop = true
 		case <-time.After(bound + 5*time.Second):
 			fail(p, "the send pending when the line died never returned")
